@@ -87,7 +87,7 @@ class CheckContext:
         return sum(1 for o in self.obligations if o.rule == rule)
 
 
-GENERIC_RULES = {"TRUTHY", "MEMO-KEY", "MEMO-DEP", "RECOMPUTE", "ARG-TYPE", "LOST-UPDATE"}
+GENERIC_RULES = {"TRUTHY", "MEMO-KEY", "MEMO-DEP", "RECOMPUTE", "ARG-TYPE", "LOST-UPDATE", "LIST-MULT", "DEFAULT-ALIAS", "ENUM-FORM"}
 
 
 def tree_is_reference(root: str) -> bool:
@@ -202,7 +202,11 @@ def finish(ctx: CheckContext, t0: float, seed: int = 0) -> int:
             "checker_cmd": f"./check {ctx.prop} --tier {ctx.tier}",
             "trusted_base": ["CPython ast", "opstatic analysers", "repository parsed from the working tree"],
         },
-        "assumptions": ctx.assumptions,
+        "assumptions": ctx.assumptions + [
+            "verdict policy: a violation is reported only for a construct the rule fully interprets; a construct it cannot interpret is undecided "
+            "(listed under coverage.analysed.*_undecided) and a rule that finds no instance abstains (coverage.abstained_rules) - except on the pinned "
+            "reference tree, where either is an analysis error (exit 2).  strict_reference_tree says which mode this run was in.",
+        ],
         "wall_s": round(time.time() - t0, 3),
         "violations": len(new_viol),
     }
